@@ -730,6 +730,21 @@ func (x *Exec) orphanLoopSpec(fr *Frame, ord int) *LoopSpec {
 // loopHeader handles arrival at a loop header; it always takes over control.
 func (x *Exec) loopHeader(st *State, fr *Frame, h *ssa.BasicBlock, pred *ssa.BasicBlock, ord int, li *loopInfo, k exitK) bool {
 	spec := x.loopSpec(fr, ord)
+	if spec != nil && fr.depth > 0 {
+		// "owninvariant" clauses belong to the function's own proof: an inlined instance neither
+		// checks nor assumes them (fewer assumptions: sound)
+		var keep []Clause
+		for _, inv := range spec.Inv {
+			if !inv.Own {
+				keep = append(keep, inv)
+			}
+		}
+		if len(keep) != len(spec.Inv) {
+			cp := *spec
+			cp.Inv = keep
+			spec = &cp
+		}
+	}
 	// compute incoming phi values
 	idx := -1
 	for i, p := range h.Preds {
